@@ -35,6 +35,11 @@ CHECKS["C07"] = ("model_checking",
     "Trusted: CbWords.tla; the harness's buffer discipline (re-submits the slice the parser left). Exhaustive on the small-block model; sampled with real constants.",
     "§4 C07")
 
+CHECKS["C20"] = ("model_checking",
+    "CbTime.tla is a hardware model (free-running 3-bit clock, half-wrap markers with counter and top bit, edges displaced across markers, one dropped/duplicated marker); TLC proves over ~1.7M (thorough ~50M) reachable FIFOs that a non-empty reconstructed time always equals the true time and that healthy edges get one. Random behaviours are scaled to 24 bits, given scaler blocks, cut arbitrarily into CBFn banks/events/.mid/.lz4 files and run through the real binary; seeded wire-width streams add faults (marker faults, corrupted near-miss words, truncated tails, leftovers, up to 4 boards). Trace_CbTime recomputes Fails/Rows from each board's bytes (CbWords + CbRows with W=2^24) and compares exit status, CSV existence and every row.",
+    "Trusted: CbWords/CbRows/CbTime; the harness's MIDAS writer (accepted by midasio) and CSV reader. A counter-0 marker with its top bit set is left open by the statement and not judged.",
+    "§4 C20")
+
 NOT_APPLICABLE = {
     "C12": "population statistics of a floating-point pipeline against a physical forward model; TLA+/TLC has no reals or floats, so the spec cannot be the oracle",
     "C16": "decisive clause is a floating-point global minimisation over a continuum; only a numeric brute force could referee it, which is a different technique",
